@@ -19,7 +19,7 @@
                 core <- multi_mode_dot(core, fixed factors, transpose=True)
    The data-dependent convergence test is an explicit decision sequence (one boolean per executed sweep, answer tape). *)
 From Coq Require Import List Arith Bool Lia.
-From TLV Require Import Model.Structure.
+From TLV Require Import Base.PyList Base.Tensor Model.Structure.
 Import ListNotations.
 Local Open Scope nat_scope.
 
@@ -118,3 +118,28 @@ Section Prog.
 End Prog.
 (* the hand-written skeleton above as a program *)
 Definition hooi_prog : hprog := mkHprog true [SImpute; SSweep; SProject; SRecon; SBreakTest 2 true].
+
+(* ------------------------------------------------------------------ partial_tucker: the rank argument *)
+(* partial_tucker's handling of its rank argument: None -> the sizes of the listed modes (with a warning), an int -> that rank for every
+   listed mode (with a warning), a list -> tuple(rank); a float is not iterable (TypeError) *)
+Definition partial_tucker_spec (shape : list nat) (spec : option rspec) (modes : list nat) : res (list (list nat)) :=
+  match spec with
+  | None => partial_tucker shape (map (fun m => nth m shape 0) modes) modes
+  | Some (RInt r) => partial_tucker shape (repeat r (length modes)) modes
+  | Some (RList l) => partial_tucker shape l modes
+  | Some (RFrac _) => Err
+  end.
+
+
+(* partial_tucker(init='random', n_iter_max=0): nothing is computed, the drawn core and factors are returned.  After 7b9d0bb the core is drawn with
+   the tensor's shape, rank[index] at position modes[index]; before, with one axis per LISTED mode ([rank[index] for index in range(len(modes))],
+   kept for the regression witness).  Factors: I_m x rank_j, not clipped. *)
+Definition pt_random0_factors (shape rank modes : list nat) : list (list nat) := map (fun p => [nth (fst p) shape 0; snd p]) (combine modes rank).
+Definition partial_tucker_random0 (shape rank modes : list nat) : res (list (list nat)) :=
+  if negb (length rank =? length modes) then Err
+  else if negb (forallb (fun m => m <? length shape) modes) then Err
+  else Ok (fold_left (fun sh p => set_nth (fst p) (snd p) sh) (combine modes rank) shape :: pt_random0_factors shape rank modes).
+Definition partial_tucker_random0_old (shape rank modes : list nat) : res (list (list nat)) :=
+  if negb (length rank =? length modes) then Err
+  else if negb (forallb (fun m => m <? length shape) modes) then Err
+  else Ok (rank :: pt_random0_factors shape rank modes).
